@@ -14,13 +14,14 @@ Quantifiers: every history of load / partial change / validate / stop / malforme
 Apps that are provisioned on demand from inside other apps' Provision (ctx.App: dependency graphs with
 cycles, unconfigured apps, failing dependencies) have their own small model and theorems:
 Deps.lean / DepsProps.lean (provisioned_at_most_once, rejected_rolled_back,
-accepted_runs_everything_once), tied to the real code by the `G=` cases.
+accepted_runs_everything_once, load_never_runs_out_of_fuel), tied to the real code by the `G=` cases.
 
 Clauses the unchanged tree violates are refuted in Witness.lean (F4: OnCancel callbacks, writers
 pool). The hosts-pool clause holds at full strength since fix d6561d4 (F20).
 -/
 import CaddyModel.C03.Witness
 import CaddyModel.C03.DepsProps
+import CaddyModel.C03.DepsFuel
 import CaddyModel.C03.LemmasO
 import CaddyModel.C01.Props
 
